@@ -269,6 +269,13 @@ def o_reject_noop(hist):
         if i + 1 < len(att) and not r.get('busted'):
             nx = att[i + 1]
             t_prev = r['t'] - r['h']
+            if r['t'] == 0.0 and not any(a['converged'] for a in att[:i]):
+                # the first step of a self-initialised run ends at the starting time; its retries end there too
+                if nx['t'] != 0.0:
+                    out.append(V('reject_noop', 'after the rejected first attempt the next attempt ends at %.9g, not at the starting time'
+                                 % nx['t'], what='clock_moved_at_start'))
+                    break
+                continue
             if abs((nx['t'] - nx['h']) - t_prev) > 1e-12 * max(1.0, abs(r['t'])):
                 out.append(V('reject_noop', 'after rejected attempt %d the next attempt starts at %.9f instead of %.9f'
                              % (r['k'], nx['t'] - nx['h'], t_prev), what='clock_not_rewound'))
